@@ -18,23 +18,29 @@ VARIABLES tid, l, st, verdict
 Earlier(i, s) == S!Closed(i, s)
 Later(i, s)   == S!Closed(i + s, s)
 
+\* What is judged in a round is what makes ANY scan schedule correct: every product combines two
+\* adjacent intervals of the same lane in the documented order.  Whether the rounds follow the doubling
+\* schedule of Scan (stride, row count, operand rows given by Scan!Closed) is recorded as st.doubling and
+\* reported by the harness as an observation, not as a violation: a different correct schedule
+\* (e.g. a work-efficient scan) is a legal refactoring.
 RoundClause(cfg, s, e) ==
-  IF e.rows = 0 THEN (IF e.stride >= cfg.L THEN "ok" ELSE "empty_round_below_L")
-  ELSE CASE s.s >= cfg.L            -> "extra_effective_round"
-         [] e.stride # s.s          -> "stride"
-         [] e.rows # cfg.L - s.s    -> "rows"
-         [] ~e.lanes                -> "lanes_mixed"
+  IF e.rows = 0 THEN "ok"
+  ELSE CASE ~e.lanes                -> "lanes_mixed"
          [] cfg.order = "right" /\ ~e.asc  -> "operand_order"
          [] cfg.order = "left"  /\ ~e.desc -> "operand_order"
-         [] cfg.order = "right" /\ (e.p0 # Earlier(1, s.s) \/ e.q0 # Later(1, s.s)) -> "first_row_operands"
-         [] cfg.order = "left"  /\ (e.q0 # Earlier(1, s.s) \/ e.p0 # Later(1, s.s)) -> "first_row_operands"
-         [] cfg.order = "right" /\ (e.p1 # Earlier(cfg.L - s.s, s.s) \/ e.q1 # Later(cfg.L - s.s, s.s)) -> "last_row_operands"
-         [] cfg.order = "left"  /\ (e.q1 # Earlier(cfg.L - s.s, s.s) \/ e.p1 # Later(cfg.L - s.s, s.s)) -> "last_row_operands"
          [] OTHER -> "ok"
 
+FollowsDoubling(cfg, s, e) ==
+  IF e.rows = 0 THEN e.stride >= cfg.L
+  ELSE /\ s.s < cfg.L /\ e.stride = s.s /\ e.rows = cfg.L - s.s
+       /\ (cfg.order = "right" => (e.p0 = Earlier(1, s.s) /\ e.q0 = Later(1, s.s) /\
+                                    e.p1 = Earlier(cfg.L - s.s, s.s) /\ e.q1 = Later(cfg.L - s.s, s.s)))
+       /\ (cfg.order = "left"  => (e.q0 = Earlier(1, s.s) /\ e.p0 = Later(1, s.s) /\
+                                    e.q1 = Earlier(cfg.L - s.s, s.s) /\ e.p1 = Later(cfg.L - s.s, s.s)))
+
 DoneClause(cfg, s, e) ==
-  CASE s.s < cfg.L                  -> "missing_round"
-    [] s.r # S!CeilLog2(cfg.L)      -> "round_count"
+  CASE s.doubling /\ s.s < cfg.L                  -> "missing_round"
+    [] s.doubling /\ s.r # S!CeilLog2(cfg.L)      -> "round_count"
     [] e.first # <<1, 1>>           -> "fold_first"
     [] e.last # <<1, cfg.L>>        -> "fold_last"
     [] e.probe # <<1, e.probe_i>>   -> "fold_probe"
@@ -64,9 +70,12 @@ Clause(cfg, s, e) ==
     [] OTHER -> "unknown_event"
 
 NextSt(cfg, s, e) ==
-  IF e.act = "round" /\ e.rows > 0 THEN [s |-> 2 * e.stride, r |-> s.r + 1] ELSE s
+  IF e.act = "round"
+  THEN [s |-> IF e.rows > 0 THEN 2 * e.stride ELSE s.s, r |-> IF e.rows > 0 THEN s.r + 1 ELSE s.r,
+        doubling |-> s.doubling /\ FollowsDoubling(cfg, s, e)]
+  ELSE s
 
-Init == tid \in 1..Len(Traces) /\ l = 1 /\ st = [s |-> 1, r |-> 0] /\ verdict = "ok"
+Init == tid \in 1..Len(Traces) /\ l = 1 /\ st = [s |-> 1, r |-> 0, doubling |-> TRUE] /\ verdict = "ok"
 
 Next ==
   LET T == Traces[tid] IN
@@ -76,6 +85,7 @@ Next ==
        /\ verdict' = IF verdict = "ok" /\ cl # "ok" THEN cl \o "@" \o ToString(l) ELSE verdict
        /\ st' = NextSt(T.cfg, st, e)
        /\ (l = Len(T.ev)) => PrintT(<<"VERDICT", tid, verdict'>>)
+       /\ (l = Len(T.ev) /\ ~st'.doubling) => PrintT(<<"NOTDOUBLING", tid>>)
   /\ l' = l + 1 /\ UNCHANGED tid
 
 Spec == Init /\ [][Next]_<<tid, l, st, verdict>>
